@@ -1,7 +1,7 @@
 SPECIFICATION Spec
 CONSTANTS
-  Dials <- DialsA
-  Accepts <- AcceptsA
+  Dials <- DialsB
+  Accepts <- AcceptsB
   AbortDials <- NoAborts
   DSide <- CSide
   DId <- CId
@@ -13,8 +13,9 @@ CONSTANTS
   MaxProgress = FALSE
   FixDrain = TRUE
   FixDrop = TRUE
-  AllowDown = FALSE
+  AllowDown = TRUE
   MaxNextId = 0
+PROPERTIES DownMeansNoNewAck
 INVARIANTS TypeOK Routing AckMatches NoBadAck NoPanic NoWedge LockFree
 
 CHECK_DEADLOCK FALSE
